@@ -46,12 +46,17 @@ META = {
 }
 
 FRESH = "zq_fresh"
+GENERIC_HELPERS = ("fun gsplit<T>(xs: List<T>): (List<T>, List<T>) { (xs, xs) }\n"
+                   "fun gfirst<T>(xs: List<T>): (Option<T>, Int) { (xs.first(), xs.len()) }\n"
+                   "fun gid<T>(x: T): T { x }\n"
+                   "fun gpairs<T>(x: T): List<(T, T)> { [(x, x)] }\n"
+                   "fun gopt<T>(o: Option<T>): (Option<T>, Option<T>) { (o, o) }")
 HINTS = {"Int": "Int", "Bool": "Bool", "Str": "String", "List": "List<Int>", "Opt": "Option<Int>", "Tup": "(Int, Int)"}
 POOL = ["a", "b", "c", "x", "y"]
 INT_OPS = ["+", "-", "*"]
 CMP_OPS = ["<", ">", "<=", ">=", "==", "!="]
 ALL_FEATURES = frozenset(["assign", "update", "while", "for", "match", "closure", "fundef", "str", "list", "dbg", "nonascii", "print",
-                          "hint", "annot", "tuple", "shadowbias", "break", "closure2"])
+                          "hint", "annot", "tuple", "shadowbias", "break", "closure2", "generic"])
 MODEL_FEATURES = frozenset(["assign", "while", "closure", "fundef", "print", "dbg"])
 
 
@@ -426,6 +431,16 @@ class Gen:
         n = max(1, self.size + self.r.randrange(-2, 3))
         for _ in range(n):
             items.append(self.stmt(0))
+        if "generic" in self.f and self.r.random() < 0.4:
+            # generic helper functions whose results (types that mention the instantiated parameter in nested
+            # positions) are bound by un-annotated lets
+            items.insert(0, {"k": "raw", "src": GENERIC_HELPERS})
+            for _ in range(self.r.randrange(1, 4)):
+                v = "g%d" % self.nid()
+                u = self.nid()
+                call = self.pick(["gsplit([1, 2, 3])", "gsplit([\"a\"])", "gfirst([4, 5])", "gid((1, [2]))", "gpairs(7)", "gopt(Some(3))",
+                                  "gsplit([[1], [2]])"])
+                items.insert(self.r.randrange(1, len(items) + 1), {"k": "let", "n": v, "id": u, "e": {"k": "rawexpr", "src": call}, "hint": None})
         items.append(self.expr(self.pick([t for t in self.types() if t != "Fn"]), 1))
         return flatten(items)
 
@@ -614,6 +629,11 @@ class Printer:
             self.w("None")
         elif k in ("break", "continue"):
             self.w(k)
+        elif k in ("raw", "rawexpr"):
+            self.w(e["src"])
+            if k == "raw":              # definitions, not an expression position
+                e["sp"] = (st, self.n)
+                return
         elif k == "fundef":
             self.w("fun ")
             self.name(e["n"], e["id"])
@@ -743,7 +763,7 @@ class Resolver:
         elif k == "assign":
             self.use(e["n"], e["id"])
             self.expr(e["e"])
-        elif k in ("int", "bool", "str", "none", "break", "continue"):
+        elif k in ("int", "bool", "str", "none", "break", "continue", "raw", "rawexpr"):
             pass
         else:
             raise ValueError(k)
